@@ -958,6 +958,17 @@ pub mod verif {
             }
         }
 
+        /// Environment of the completion handlers: make a content download of the document
+        /// look queued (or not). The handlers read nothing else of the download machinery.
+        pub fn verif_set_download_queued(&mut self, namespace: NamespaceId, queued: bool) {
+            let hash = iroh_blobs::Hash::new(b"verif queued download");
+            if queued {
+                self.queued_hashes.insert(hash, namespace);
+            } else {
+                self.queued_hashes.remove_hash(&hash);
+            }
+        }
+
         /// The node id of this actor.
         pub fn verif_me(&self) -> PublicKey {
             self.endpoint.id()
